@@ -480,7 +480,7 @@ def _check_tool(case, st, tmp):
 
 
 # ------------------------------------------- what the two tools *print* --
-def run_tool_text(tool, argv):
+def run_tool_text(tool, argv, flags=('-q',)):
     import cnfgen.clitools.msg as msg
     if tool == 'cnfgen':
         from cnfgen.clitools.cnfgen import cli
@@ -492,7 +492,7 @@ def run_tool_text(tool, argv):
     buf = io.StringIO()
     try:
         with contextlib.redirect_stderr(io.StringIO()), contextlib.redirect_stdout(buf):
-            cli([tool, '-q'] + argv, mode='output')
+            cli([tool] + list(flags) + argv, mode='output')
         return 'ok', buf.getvalue()
     except SystemExit as e:
         return ('ok', buf.getvalue()) if e.code in (0, None) else ('exc', e)
@@ -544,8 +544,9 @@ def check_text(case, st=None, tmp=None):
             with open(os.path.join(tmp, name), 'w') as f:
                 f.write(big_graph_file(kind, k))
         argv = _tokens(case['argv'], tmp)
-        ka, A = run_tool_text('cnfgen', argv)
-        kb, B = run_tool_text('pbgen', argv)
+        fl = tuple(case.get('flags') or ('-q',))
+        ka, A = run_tool_text('cnfgen', argv, fl)
+        kb, B = run_tool_text('pbgen', argv, fl)
     finally:
         if own:
             shutil.rmtree(tmp, ignore_errors=True)
@@ -562,6 +563,16 @@ def check_text(case, st=None, tmp=None):
         bad('pbgen-text-unreadable', 'strict OPB reader: %s' % (e,))
         return out
     st['rows'] = (len(P.clauses), len(cons))
+    if '--varnames' in (case.get('flags') or ()):
+        # the names both tools print (comment lines 'c varname i NAME' / '* varname xi NAME')
+        na = [ln.split(None, 3)[3] if len(ln.split(None, 3)) > 3 else '' for ln in A.splitlines()
+              if ln.startswith('c varname ')]
+        nb_ = [ln.split(None, 3)[3] if len(ln.split(None, 3)) > 3 else '' for ln in B.splitlines()
+               if ln.startswith('* varname ')]
+        st['names'] = len(na)
+        if na != nb_ or len(na) != P.n:
+            bad('printed-names', 'cnfgen prints %d names %r..., pbgen %d names %r... for %d variables'
+                % (len(na), na[:3], len(nb_), nb_[:3], P.n))
     if N != P.n:
         bad('nvars', 'cnfgen prints %d variables, pbgen %d' % (P.n, N))
         return out
@@ -642,6 +653,11 @@ def text_cases(tier):
     add('kcolor', ['kcolor', 2, 'kthlist', PLACE + '/tri.kthlist'], {'tri.kthlist': ('triangles', 300)})
     add('matching', ['matching', 'kthlist', PLACE + '/edges.kthlist'], {'edges.kthlist': ('edges', 1100)})
     add('tseitin', ['tseitin', 'first', 'kthlist', PLACE + '/tri.kthlist'], {'tri.kthlist': ('triangles', 400)})
+    # the names printed with --varnames, under every verbosity
+    for fl in (['-q', '--varnames'], ['--varnames'], ['-v', '--varnames']):
+        for cmd, argv in (('php', ['php', 3, 2]), ('kcolor', ['kcolor', 2, 'complete', 3]),
+                          ('count', ['count', 4, 2]), ('tseitin', ['tseitin', 'first', 'complete', 4])):
+            cs.append({'lvl': 'text', 'cmd': cmd, 'argv': argv, 'bigfiles': {}, 'flags': fl})
     if tier == 'thorough':
         add('and', ['and', 4097, 4097])
         add('kcolor', ['kcolor', 4, 'kthlist', PLACE + '/tri.kthlist'], {'tri.kthlist': ('triangles', 1400)})
@@ -925,6 +941,8 @@ FILES = {
     'f1.cnf': 'p cnf 3 2\n1 -2 0\n2 3 0\n',
     # file names that contain the spelling of an option
     'in-T1.cnf': 'p cnf 3 2\n1 -2 0\n2 3 0\n',
+    'f0.cnf': 'c no variables, no clauses\np cnf 0 0\n',
+    'f0e.cnf': 'c no variables, the empty clause\np cnf 0 1\n0\n',
     'ring-T4.kthlist': 'c a 4-cycle\n4\n1 : 2 4 0\n2 : 1 3 0\n3 : 2 4 0\n4 : 1 3 0\n',
     'b-T-o-q.matrix': '2 3\n1 1 0\n0 1 1\n',
     'd-Txor.kthlist': 'c a dag\n3\n1 : 0\n2 : 1 0\n3 : 1 2 0\n',
@@ -1136,7 +1154,7 @@ def tool_cases(tier, seed):
         add('pitfall', list(p), ('pitfall',) + p, sd=6)
         cs[-1]['limit'] = cs[-2]['limit'] = 22
     # ---- dimacs
-    for name in ('f1.cnf', 'f2.cnf', 'f3.cnf', 'f4.cnf', 'f5.cnf', 'in-T1.cnf'):
+    for name in ('f1.cnf', 'f2.cnf', 'f3.cnf', 'f4.cnf', 'f5.cnf', 'in-T1.cnf', 'f0.cnf', 'f0e.cnf'):
         add('dimacs', _f(name))
         add('dimacs', [], stdin=FILES[name])
     add('dimacs', [PLACE + '/missing.cnf'])
